@@ -157,12 +157,13 @@ class Projector:
         self.markers_path = os.path.normpath(markers_path)
         self.cwd = cwd
         self.table = {}       # (head hex, len) -> [ids]
-        self.kept = {}        # fd -> True for descriptors of kept opens
+        self.handles = {}     # raw fd -> [(handle id, path at open)] of kept opens, oldest first
+        self.nexth = 100
         self.events = []
         self.active = False   # between Begin and End markers
         self.observing = False
         self.inflight = []    # content ids of uploads called and not returned
-        self.lastwrite = {}   # fd -> index into events of the write being accumulated
+        self.lastwrite = {}   # handle -> index into events of the write being accumulated
         self.markers = [json.loads(x) for x in open(markers_path)] if os.path.exists(markers_path) else []
         self.mi = 0
         self.notes = []
@@ -176,6 +177,29 @@ class Projector:
         if p.startswith(self.root + "/"):
             return p[len(self.root) + 1:].split("/")
         return ["<outside>"] + [x for x in p.split("/") if x]
+
+    def handle(self, fd, fpath, closing=False):
+        """Descriptor numbers are reused, and strace may report the close of a
+        descriptor by one thread after the open by another thread that got the
+        same number; events therefore carry a handle id that is unique per open.
+        The -y annotation (the path of the descriptor when the call was entered)
+        tells which of several candidates is meant."""
+        hs = self.handles.get(fd)
+        if not hs:
+            return None
+        pick = None
+        if len(hs) > 1 and fpath is not None:
+            fp = os.path.normpath(fpath)
+            m = [x for x in hs if x[1] == fp]
+            if m:
+                pick = m[0] if closing else m[-1]
+        if pick is None:
+            pick = hs[0] if closing else hs[-1]
+        if closing:
+            hs.remove(pick)
+            if not hs:
+                del self.handles[fd]
+        return pick[0]
 
     def inside(self, comps):
         return not comps or comps[0] != "<outside>"
@@ -240,7 +264,9 @@ class Projector:
                 data, _ = str_arg(args[1])
                 self.marker(no, tid, data)
                 return
-            if fd in self.kept and live:
+            h = self.handle(fd, fpath) if live else None
+            if h is not None:
+                fd = h
                 if name != "write":
                     self.ev(no, tid, "unsupported", fd=fd, ret=ret, flags=[name])
                     return
@@ -262,32 +288,36 @@ class Projector:
                 self.lastwrite[fd] = len(self.events) - 1
             return
         if name in ("fsync", "fdatasync"):
-            fd, _ = fd_arg(args[0])
-            if fd in self.kept and live and ret == 0:
-                self.ev(no, tid, "fsync", fd=fd, ret=ret)
+            fd, fpath = fd_arg(args[0])
+            h = self.handle(fd, fpath)
+            if h is not None and live and ret == 0:
+                self.ev(no, tid, "fsync", fd=h, ret=ret)
             return
         if name == "close":
-            fd, _ = fd_arg(args[0])
-            if fd in self.kept:
-                del self.kept[fd]
-                self.lastwrite.pop(fd, None)
+            fd, fpath = fd_arg(args[0])
+            h = self.handle(fd, fpath, closing=True)
+            if h is not None:
+                self.lastwrite.pop(h, None)
                 if live:
-                    self.ev(no, tid, "close", fd=fd, ret=ret)
+                    self.ev(no, tid, "close", fd=h, ret=ret)
             return
         if name == "fchmod":
-            fd, _ = fd_arg(args[0])
-            if fd in self.kept and live and ret == 0:
-                self.ev(no, tid, "fchmod", fd=fd, ret=ret, mode=int(args[1], 8))
+            fd, fpath = fd_arg(args[0])
+            h = self.handle(fd, fpath)
+            if h is not None and live and ret == 0:
+                self.ev(no, tid, "fchmod", fd=h, ret=ret, mode=int(args[1], 8))
             return
         if name == "ioctl":
-            fd, _ = fd_arg(args[0])
-            if fd in self.kept and live and ret == 0 and args[1] == "FS_IOC_SETFLAGS":
-                self.ev(no, tid, "setflags", fd=fd, ret=ret, imm="FS_IMMUTABLE_FL" in args[2])
+            fd, fpath = fd_arg(args[0])
+            h = self.handle(fd, fpath)
+            if h is not None and live and ret == 0 and args[1] == "FS_IOC_SETFLAGS":
+                self.ev(no, tid, "setflags", fd=h, ret=ret, imm="FS_IMMUTABLE_FL" in args[2])
             return
         if name in ("ftruncate", "fallocate", "sync_file_range", "copy_file_range", "sendfile"):
-            fds = [fd_arg(a)[0] for a in args[:1]]
-            if live and any(f in self.kept for f in fds):
-                self.ev(no, tid, "unsupported", fd=fds[0], ret=ret, flags=[name])
+            fd, fpath = fd_arg(args[0])
+            h = self.handle(fd, fpath)
+            if live and h is not None:
+                self.ev(no, tid, "unsupported", fd=h, ret=ret, flags=[name])
             return
         if name in ("sync", "syncfs"):
             if live:
@@ -314,8 +344,9 @@ class Projector:
             if not (self.inside(comps) or mut):
                 return
             if ret >= 0:
-                self.kept[ret] = True
-                self.ev(no, tid, "open", path=comps, fd=ret, ret=ret, flags=fl)
+                self.nexth += 1
+                self.handles.setdefault(ret, []).append((self.nexth, absn))
+                self.ev(no, tid, "open", path=comps, fd=self.nexth, ret=ret, flags=fl)
             return
         two = {"renameat": (0, 1, 2, 3), "renameat2": (0, 1, 2, 3), "rename": (None, 0, None, 1),
                "linkat": (0, 1, 2, 3), "link": (None, 0, None, 1)}
